@@ -108,8 +108,11 @@ func NewPeerPool(cfg PeerPoolConfig) (*PeerPool, error) {
 		dnsServers = append(dnsServers, ip)
 	}
 
-	// Ensure peers list includes this node
-	allPeers := cfg.Peers
+	// Ensure peers list includes this node. The ring gets its own copy: it is
+	// sorted here and re-sorted and spliced by AddPeer/RemovePeer, which must
+	// not reorder or overwrite the configured address list (p.peers) through a
+	// shared backing array.
+	allPeers := append([]string(nil), cfg.Peers...)
 	nodeFound := false
 	for _, p := range allPeers {
 		if p == cfg.NodeID {
